@@ -57,6 +57,17 @@ func (o *overlayer) overlayField(base, overlay reflect.Value) error {
 			base.Set(reflect.New(base.Type().Elem()))
 			return o.overlayStruct(base.Elem(), overlay.Elem())
 		}
+		if base.Type().Elem().Kind() != reflect.Struct {
+			// a user-declared pointer to a non-struct type is not
+			// pointerified further: replace it as a whole, exactly as
+			// in the nil case above.
+			if !overlay.Type().AssignableTo(base.Type()) {
+				return fmt.Errorf("type %s is not assignable to %s",
+					overlay.Type(), base.Type())
+			}
+			base.Set(overlay)
+			return nil
+		}
 		if ptrify.IsTextUnmarshalerStruct(base.Type().Elem()) {
 			// base is not nil and we're not deep-copying, so we can overwrite the pointer.
 			if overlay.Type().AssignableTo(base.Type()) {
